@@ -26,6 +26,8 @@ func Now() time.Time {
 	if x == nil || x.cur == nil {
 		return time.Now()
 	}
+	// reading the clock is an observation that may be preceded by any number of timer events
+	simple(OpPoint, nil, nil)
 	return time.Unix(0, epochBase+x.clock)
 }
 
